@@ -315,6 +315,9 @@ def check(run, views, tier):
             if is_some:
                 arms[arm] += 1
                 ok = len(incs) == 1 and not assigns and incs[0][2][1] == ("lit", "AddAssign") and incs[0][2][2] == ("lit", 1)
+                if not ok and not incs and len(assigns) == 1 and isinstance(assigns[0][2][1], tuple) and assigns[0][2][1][0] == "bin" and assigns[0][2][1][1] == "Add" and \
+                        ((assigns[0][2][1][2] == IDX and assigns[0][2][1][3] == ("lit", 1)) or (assigns[0][2][1][3] == IDX and assigns[0][2][1][2] == ("lit", 1))):
+                    ok = True           # `index = index + 1` (through a local copy of the old index) is `index += 1`
                 if not ok and not incs and len(assigns) == 1 and assigns[0][2][1] == ("lit", 1) and \
                         any(c[0] in ("if", "guard") and ((c[2] is True and c[1] == ("bin", "Eq", IDX, ("lit", 0))) or (c[2] is False and c[1] == ("bin", "Ne", IDX, ("lit", 0)))) for c in p.conds):
                     ok = True           # `index = 1` under `index == 0` is `index += 1`
@@ -329,7 +332,11 @@ def check(run, views, tier):
                     run.ob("R-CONTAINER", "iterator[Array]: guarded by index < len", True, "get(index)?", site(nb), key="R-CONTAINER|next|Array|guard")
                 elif arm == "Array":
                     ok_el = el[0] == "index" and el[2] == IDX and el[1][0] == "proj" and el[1][1] == ("field", ("var", "self"), "value")
-                    guard = any(c[0] in ("if", "guard") and c[2] is True and c[1][0] == "bin" and c[1][1] == "Lt" and c[1][2] == IDX and is_call(c[1][3]) and c[1][3][1].endswith("::len")
+                    guard = any(c[0] in ("if", "guard") and isinstance(c[1], tuple) and c[1][0] == "bin" and
+                                ((c[2] is True and c[1][1] == "Lt" and c[1][2] == IDX and is_call(c[1][3]) and c[1][3][1].endswith("::len")) or
+                                 (c[2] is False and c[1][1] == "Ge" and c[1][2] == IDX and is_call(c[1][3]) and c[1][3][1].endswith("::len")) or
+                                 (c[2] is True and c[1][1] == "Gt" and c[1][3] == IDX and is_call(c[1][2]) and c[1][2][1].endswith("::len")) or
+                                 (c[2] is False and c[1][1] == "Le" and c[1][3] == IDX and is_call(c[1][2]) and c[1][2][1].endswith("::len")))
                                 for c in p.conds)
                     run.ob("R-CONTAINER", "iterator[Array]: yields array[old index]", ok_el, "yields %s" % tshow(el)[:120], site(nb), key="R-CONTAINER|next|Array|element")
                     run.ob("R-CONTAINER", "iterator[Array]: guarded by index < len", guard, pc, site(nb), key="R-CONTAINER|next|Array|guard")
